@@ -15,4 +15,4 @@ Definition outcome_probe : outcome Z -> bool := is_ok.
 
 Extraction "../ocaml/c18/model.ml"
   z_add z_mul z_opp z_div_eucl z_ltb z_eqb unit_z outcome_probe
-  interp_glyph run_glyph bbox_ok ivd_scalars index_read_object out.
+  interp_glyph run_glyph bbox_ok ivd_scalars index_read_object out charset_sid_to_gid.
